@@ -171,3 +171,13 @@ def run(P: Program, R: Report, tier: str) -> None:
         zero = any(isinstance(c, ast.Call) and call_name(c) == "_set_edge_attr" and norm(c.args[2]) == "0" for c in ast.walk(helper.node))
         R.check(zero, "R09.4", helper, helper.node, f"{helper.short}: edges without an overlapping entry get 0", "", via="syntax")
     update_guards(P, R, ann, "R09.5")
+    from .annot import compute_is_memoryless
+
+    compute_is_memoryless(P, R, ann, "R09.6")
+    # ---- R09.7 the kernel treats labels as names (no arithmetic in the image dtype)
+    from .labels import labels_are_names
+
+    ks = [f for f in P.find_funcs(kernel_name) if ".annotators." in f.qname and f.parent is None]
+    if len(ks) != 1:
+        raise AnalysisError(f"IoU kernel {kernel_name} of the annotators package: found {len(ks)}")
+    labels_are_names(P, R, ks[0], "R09.7")
